@@ -87,7 +87,7 @@ func (Prop) ProcessesPerWorker(tier string) int {
 }
 
 func (Prop) Rule() string {
-	return "plan = history of <=30 operations LOAD(set) / PARSE(src) / RUN(script of a loaded set, point, optional cancellation at poll k) / RUNV2(script) / PURGE over <=8 generated scripts (grok+add_pattern, use links, loops, run-time errors mid-loop, exit, default_time with year-less and zone-less stamps, json/xml/sql/url builtins; broken and unparsable members; sources mutated to be invalid or to trip the parser's recover) x <=4 points, each operation with its own simulated instant and zone; every pool Get is a simulator decision (fresh / any idle object / purge first); evaluation = one execution of the history (forward with recycling, or reference in reverse order with fresh objects only); non-trivial = at least one dirty object was recycled and >=2 operations were compared; distinct = hash of (workload, recycle decisions)"
+	return "plan = history of <=30 operations LOAD(set) / PARSE(src) / RUN(script of a loaded set, point, optional cancellation at poll k) / RUNV2(script) / PURGE over <=8 generated scripts (grok+add_pattern, use links, loops, run-time errors mid-loop, exit, default_time with year-less and zone-less stamps, json/xml/sql/url builtins; broken and unparsable members; sources mutated to be invalid or to trip the parser's recover) x <=4 points (0-3 input tags, with and without timestamp), runs with and without host run options (private values), check failures of every kind in every statement context, near-miss spellings of names, plan-level pattern and zone names, each operation with its own simulated instant and zone; every pool Get is a simulator decision (fresh / any idle object / purge first); evaluation = one execution of the history (forward with recycling, or reference in reverse order with fresh objects only); non-trivial = at least one dirty object was recycled and >=2 operations were compared; distinct = hash of (workload, recycle decisions)"
 }
 func (Prop) Assumptions() []string {
 	return []string{
